@@ -84,7 +84,7 @@ class C05Machine(Machine):
         if large:
             cfg["curie_pool"] = cfg["curie_pool"] + tokens.synthetic_curie_prefixes(60)
             cfg["uri_pool"] = cfg["uri_pool"] + tokens.synthetic_uri_prefixes(60)
-            cfg["start_size"] = rng.randint(15, 30)
+            cfg["start_size"] = rng.choice([14, 15, 16, 17, 20, 30, 31, 32, 33, 40])   # on / next to usual thresholds
             cfg["max_ops"] = rng.randint(8, 24)
         return cfg
 
